@@ -38,21 +38,24 @@ struct Plan {
 fn plan(prop: &str, tier: &str) -> Plan {
     let quick = tier != "thorough";
     let structural = matches!(prop, "C01" | "C02" | "C03" | "C04" | "C05" | "C12");
+    // measured on 16 cores (release build): E(5,4) 0.5 s, E(6,4) 28 s, E'(2,4) 3 s, E'(2,5) 21 s, E'(1,6) 0.5 s
     let mut p = if quick {
-        Plan { random_cases: 4000, long_cases: 0, long_ops: 250, enum_empty: vec![(3, 3)], enum_shapes: vec![(3, 2), (4, 1)] }
+        Plan { random_cases: 12_000, long_cases: 400, long_ops: 200, enum_empty: vec![(4, 4)], enum_shapes: vec![(3, 2), (4, 1), (5, 1)] }
     } else {
-        Plan { random_cases: 360_000, long_cases: 40_000, long_ops: 250, enum_empty: vec![(4, 4)], enum_shapes: vec![(4, 2), (5, 1)] }
+        Plan { random_cases: 360_000, long_cases: 40_000, long_ops: 250, enum_empty: vec![(5, 4)], enum_shapes: vec![(4, 2), (5, 1), (6, 1)] }
     };
     if structural && quick {
-        p.enum_empty = vec![(4, 3)];
+        p.random_cases = 16_000;
+        p.enum_empty = vec![(5, 4)];
+        p.enum_shapes = vec![(4, 2), (5, 1)];
     }
     if structural && !quick {
-        p.enum_empty = vec![(5, 4)];
-        p.enum_shapes = vec![(4, 2), (5, 2)];
+        p.enum_empty = vec![(6, 4)];
+        p.enum_shapes = vec![(5, 2), (6, 1)];
     }
     match prop {
         "C06" => {
-            p.random_cases = if quick { 320 } else { 20_000 };
+            p.random_cases = if quick { 480 } else { 20_000 };
             p.long_cases = 0;
             p.enum_empty = vec![];
             p.enum_shapes = vec![];
@@ -66,18 +69,14 @@ fn plan(prop: &str, tier: &str) -> Plan {
         "C16" => {
             p.enum_empty = vec![];
             p.enum_shapes = vec![];
-            if !quick {
-                p.random_cases = 200_000;
-                p.long_cases = 20_000;
-            }
+            p.random_cases = if quick { 6000 } else { 200_000 };
+            p.long_cases = if quick { 0 } else { 20_000 };
         }
         "C13" => {
             p.enum_empty = vec![];
             p.enum_shapes = vec![];
-            if !quick {
-                p.random_cases = 100_000;
-                p.long_cases = 10_000;
-            }
+            p.random_cases = if quick { 8000 } else { 100_000 };
+            p.long_cases = if quick { 0 } else { 10_000 };
         }
         "C09" | "C10" | "C11" | "C07" | "C08" => {
             if !quick {
@@ -227,7 +226,22 @@ fn run<P: Payload>(args: &[String], prop: &str, seed: u64, build: &str, prof: Pr
     let tier = arg(args, "--tier").unwrap_or_else(|| "quick".into());
     let workers: u64 = arg(args, "--workers").and_then(|s| s.parse().ok()).unwrap_or(16);
     let out_path = arg(args, "--out").unwrap_or_else(|| format!("/verif/target/partial-{prop}-{build}.json"));
-    let pl = plan(prop, &tier);
+    let mut pl = plan(prop, &tier);
+    if let Some(c) = arg(args, "--cases").and_then(|s| s.parse::<u64>().ok()) {
+        pl.random_cases = c;
+        pl.long_cases = 0;
+    }
+    if let Some(e) = arg(args, "--enum-shapes") {
+        // e.g. "4:2,5:1"
+        pl.enum_shapes = e.split(',').filter_map(|x| x.split_once(':')).filter_map(|(a, b)| Some((a.parse().ok()?, b.parse().ok()?))).collect();
+    }
+    if let Some(e) = arg(args, "--enum-empty") {
+        pl.enum_empty = e.split(',').filter_map(|x| x.split_once(':')).filter_map(|(a, b)| Some((a.parse().ok()?, b.parse().ok()?))).collect();
+    }
+    if flag(args, "--no-enum") {
+        pl.enum_empty.clear();
+        pl.enum_shapes.clear();
+    }
     // hang supervisor: a single case normally takes well under a second
     {
         let limit: u64 = std::env::var("ITV_HANG_SECS").ok().and_then(|s| s.parse().ok()).unwrap_or(90);
@@ -427,7 +441,7 @@ fn run14(args: &[String], seed: u64, build: &str) -> i32 {
     let tier = arg(args, "--tier").unwrap_or_else(|| "quick".into());
     let workers: u64 = arg(args, "--workers").and_then(|s| s.parse().ok()).unwrap_or(16);
     let out_path = arg(args, "--out").unwrap_or_else(|| format!("/verif/target/partial-C14-{build}.json"));
-    let (cases, max_nodes) = if tier == "thorough" { (300_000u64, 28usize) } else { (6_000u64, 20usize) };
+    let (cases, max_nodes) = if tier == "thorough" { (400_000u64, 28usize) } else { (32_000u64, 20usize) };
     let mut found: Option<(PrettyCase, itv_core::world::Failure)> = None;
     let mut evals = 0u64;
     // replay tier
